@@ -146,6 +146,8 @@ def handleStages (j : Json) : Except String Json := do
   pure (Json.mkObj [("stages", Json.arr (stages.toArray.map natListJ)),
                     ("trained", natListJ s.trained.reverse), ("included", natListJ s.included.reverse),
                     ("topo", Json.bool (topoLB g [] nodes)),
+                    ("delivered", Json.arr ((deliveredAll g nodes).toArray.map fun (c, l) =>
+                      Json.arr #[Json.num (JsonNumber.fromNat c), match l with | some l => natListJ l | none => Json.null])),
                     ("required", Json.arr ((required g nodes).toArray.map fun rel =>
                       Json.arr (rel.toArray.map fun (n, cs) => Json.arr #[Json.num (JsonNumber.fromNat n), natListJ cs]))),
                     ("route_faults", Json.arr ((routeFaults g nodes).toArray.map fun f =>
